@@ -445,6 +445,11 @@ impl<T: Send + Sync + 'static> Probe<T> {
         });
         if matches!(ms, M::Hs | M::Data(_)) {
             self.react(MK::from(&ms));
+        } else if ms == M::Term && with(|ex| ex.cfg.pull_after_end && !ex.probes[p as usize].sent_terminal) {
+            // C15: "every pattern of Pull": also a Pull from inside the completion handler
+            if choose_opt(Kind::Dev, What::React(p, MK::Term), &[opt::NOTHING, opt::PULL]) == opt::PULL {
+                self.act(opt::PULL);
+            }
         }
         rec(Ev::Out(Actor::Probe(p)));
     }
@@ -579,8 +584,10 @@ impl<T: Send + Sync + 'static> Probe<T> {
         let tb = self.tb.lock().unwrap_or_else(|e| e.into_inner()).clone();
         let Some(tb) = tb else { return };
         let ok = with(|ex| {
+            let extra = ex.cfg.pull_after_end;
             let st = ex.probe(p);
-            if !st.can_act() {
+            let late_pull = extra && code == opt::PULL && st.has_tb && !st.sent_terminal;
+            if !st.can_act() && !late_pull {
                 return false;
             }
             match code {
